@@ -59,7 +59,7 @@ type leaf struct {
 	Rel        []string `json:"rel"`         // field path relative to that node
 	CtxOK      bool     `json:"ctx_ok"`      // the generator expects the context-only resolvers to resolve TypeTerm.Rel
 	Leak       bool     `json:"leak"`        // the leaf sits under a type-scoped redefinition that must NOT be visible (D8 class)
-	Member     bool     `json:"member"`      // reached through member >= 1 of a heterogeneous array
+	Member     bool     `json:"member"`      // reached through member >= 1 of a node array (the resolver walks member 0 instead)
 	Hetero     bool     `json:"hetero"`      // reached through a heterogeneous array (stored numbering may differ from document order)
 	ArrayLen   int      `json:"array_len"`   // >0: the leaf is member of a literal array of that length
 	SingleWrap bool     `json:"single_wrap"` // the leaf is the only member of a one-element array
@@ -577,7 +577,7 @@ func (g *gen) node(t *typ, penv env, leak map[string]bool, docPath []string, par
 				if p.Alt != nil {
 					g.features["hetero-array"] = true
 				}
-				arr = append(arr, g.node(ct, cenv, cleak, dp, pp, &myRoot, topVisible && !p.Scoped, member || (p.Alt != nil && i >= 1), hetero || p.Alt != nil))
+				arr = append(arr, g.node(ct, cenv, cleak, dp, pp, &myRoot, topVisible && !p.Scoped, member || i >= 1, hetero || p.Alt != nil))
 			}
 			switch {
 			case n == 0:
